@@ -33,8 +33,12 @@ Line protocol for C14 (Float, bit patterns `x<16 hex>`):
 * `U shape=<nats> flat=<fl>` — `result = flat.copy(); result.shape = shape;
   result.squeeze()`: answer `res <fl>`, the entries of the returned array listed
   in row-major order of ITS (squeezed) shape.
+* `O1 tol=<f> dim=<n> d=<x,y,z> m=<fl> f=<fl> rho=<fl> lens=<nats> sk=<nats> sw=<fl> pk=<nats> pn=<fl>` —
+  one order1 `compute` for one target point over the shared arrays
+  (`order1Compute`: group 1 overwrites `rho` of every source particle, groups 2
+  and 3 read it): answer `val <4> mom <16> psph <4> rho <fl>` (the `rho` it leaves).
 * bindings (stateful): `B init arrays=<nats> pts=<nat>`, `B setpts p=<nat>`,
-  `B updarr arrays=<nats>`, `B update`, `B mutate o=<nat>`, and for SPHEvaluator `B initeval objs=<nats>`,
+  `B updarr arrays=<nats>`, `B update`, `B mutate o=<nat>`, `B touch o=<nat>`, and for SPHEvaluator `B initeval objs=<nats>`,
   `B evalupdarr objs=<nats>`; each answers
   `filled=<nats> evaluated=<nats> binned=<nats> result=<nat> consts=<nats> current=<true|false>`.
 -/
@@ -75,6 +79,61 @@ def handlePt (kv : List (String × String)) : String :=
       | _, _ => "bad-op"
     else "bad-op"
   | _, _, _ => "bad-op"
+
+/-- split `l` into consecutive chunks of the given lengths; `none` unless the
+lengths add up to `l.length` -/
+def splitLensG {β : Type} : List Nat → List β → Option (List (List β))
+  | [], [] => some []
+  | [], _ :: _ => none
+  | n :: ns, l =>
+    if l.length < n then none
+    else (splitLensG ns (l.drop n)).map (fun t => l.take n :: t)
+
+def toPtNbrs : List Nat → List Float → Option (List (PtNbr Float))
+  | [], [] => some []
+  | k :: ks, w :: d0 :: d1 :: d2 :: sx :: sy :: sz :: rest =>
+    (toPtNbrs ks rest).map (fun t =>
+      { k := k, w := w, dw0 := d0, dw1 := d1, dw2 := d2, sx := sx, sy := sy, sz := sz } :: t)
+  | _, _ => none
+
+/-- `O1`: one `compute` of an order1 Interpolator for one target point on the
+SHARED arrays as the call finds them (`order1Compute`): masses `m`, staged values
+`f` and the OLD `rho` of all source particles (whatever was left there), the
+kernel values among the sources (`lens`/`sk`/`sw`: per particle its neighbours in
+visiting order) and the point's neighbours (`pk`, 7 numbers each in `pn`) -/
+def handleO1 (kv : List (String × String)) : String :=
+  match (lookup kv "tol") >>= parseFloatBits?, (lookup kv "dim") >>= parseNat?,
+        (lookup kv "d") >>= parseList? parseFloatBits?,
+        (lookup kv "m") >>= parseList? parseFloatBits?,
+        (lookup kv "f") >>= parseList? parseFloatBits?,
+        (lookup kv "rho") >>= parseList? parseFloatBits? with
+  | some tol, some dim, some [x, y, z], some m, some f, some rho =>
+    match (lookup kv "lens") >>= parseList? parseNat?, (lookup kv "sk") >>= parseList? parseNat?,
+          (lookup kv "sw") >>= parseList? parseFloatBits?,
+          (lookup kv "pk") >>= parseList? parseNat?,
+          (lookup kv "pn") >>= parseList? parseFloatBits? with
+    | some lens, some sk, some sw, some pk, some pnf =>
+      let n := m.length
+      if dim < 1 ∨ dim > 3 ∨ f.length ≠ n ∨ rho.length ≠ n ∨ lens.length ≠ n ∨
+         sk.length ≠ sw.length ∨ sk.any (fun k => decide (n ≤ k)) ∨ pk.any (fun k => decide (n ≤ k))
+      then "bad-op" else
+      match splitLensG lens (sk.zip sw), toPtNbrs pk pnf with
+      | some per, some pn =>
+        let perA := per.toArray
+        let g : SrcGeo Float := { ids := List.range n, nbrs := fun j => perA.getD j [] }
+        let mA := m.toArray; let fA := f.toArray; let rA := rho.toArray
+        let st : Store Float := { m := fun k => mA.getD k 0, rho := fun k => rA.getD k 0,
+                                  f := fun k => fA.getD k 0 }
+        let d : Pos Float := ⟨x, y, z⟩
+        let r := order1Compute tol dim g d pn st
+        let nbrs := pn.map (ptNbr r.1)
+        "val " ++ showFl r.2.toList ++
+        " mom " ++ showFl (group2 r.1 d pn).toList ++
+        " psph " ++ showFl (psphFlat nbrs).toList ++
+        " rho " ++ showFl ((List.range n).map r.1.rho)
+      | _, _ => "bad-op"
+    | _, _, _, _, _ => "bad-op"
+  | _, _, _, _, _, _ => "bad-op"
 
 def handlePost (kv : List (String × String)) : String :=
   match (lookup kv "tol") >>= parseFloatBits?, (lookup kv "dim") >>= parseNat?,
@@ -227,6 +286,7 @@ def handleB (st : Option IState) (toks : List String) : Option IState × String 
             ((lookup kv "objs") >>= parseList? parseNat?).map Op.evalUpdateArrays
           else if cmd = "update" then some Op.update
           else if cmd = "mutate" then ((lookup kv "o") >>= parseNat?).map Op.mutate
+          else if cmd = "touch" then ((lookup kv "o") >>= parseNat?).map Op.touch
           else none
         match op with
         | none => (st, "bad-op")
@@ -237,6 +297,7 @@ def handle (st : Option IState) (line : String) : Option IState × String :=
   match tokens line with
   | "pt" :: rest => (st, handlePt (kvs rest))
   | "post" :: rest => (st, handlePost (kvs rest))
+  | "O1" :: rest => (st, handleO1 (kvs rest))
   | "S" :: rest => (st, handleS (kvs rest))
   | "R" :: rest => (st, handleR (kvs rest))
   | "U" :: rest => (st, handleU (kvs rest))
